@@ -337,10 +337,12 @@ func (fc *FuncCtx) execFor(st *State, x *ast.ForStmt, label string) *State {
 
 	tgt := &jumpTarget{label: label, isLoop: true}
 	fc.breakTargets = append(fc.breakTargets, tgt)
+	bodyStart := body.clone()
 	end := fc.exec(body, x.Body)
 	fc.breakTargets = fc.breakTargets[:len(fc.breakTargets)-1]
 	end = fc.merge(append([]*State{end}, tgt.continues...))
 	if !end.dead {
+		fc.checkSteps(end, bodyStart, lc, ord, pre, at, x)
 		if x.Post != nil {
 			end = fc.exec(end, x.Post)
 		}
@@ -353,7 +355,100 @@ func (fc *FuncCtx) execFor(st *State, x *ast.ForStmt, label string) *State {
 	return fc.merge(append([]*State{exit}, tgt.breaks...))
 }
 
+// litSlice returns the elements of a slice literal bound once to a local variable that is never
+// assigned again (such a range is unrolled: the length is static, so this is complete).
+func (fc *FuncCtx) litSlice(id *ast.Ident) []ast.Expr {
+	obj, ok := fc.info.ObjectOf(id).(*types.Var)
+	if !ok || !fc.isLocal(obj) {
+		return nil
+	}
+	var elts []ast.Expr
+	defs, other := 0, 0
+	ast.Inspect(fc.decl.Body, func(n ast.Node) bool {
+		switch a := n.(type) {
+		case *ast.AssignStmt:
+			for i, l := range a.Lhs {
+				if lid, ok := l.(*ast.Ident); ok && fc.info.ObjectOf(lid) == obj {
+					if a.Tok == token.DEFINE && len(a.Lhs) == len(a.Rhs) {
+						if cl, ok := a.Rhs[i].(*ast.CompositeLit); ok {
+							if _, isSl := fc.typeOf(cl).Underlying().(*types.Slice); isSl {
+								defs++
+								elts = cl.Elts
+								continue
+							}
+						}
+					}
+					other++
+				}
+			}
+		case *ast.UnaryExpr:
+			if a.Op == token.AND {
+				if lid, ok := a.X.(*ast.Ident); ok && fc.info.ObjectOf(lid) == obj {
+					other++
+				}
+			}
+		case *ast.IndexExpr:
+			// element writes fields[i] = ... are caught as assignments with IndexExpr lhs below
+		}
+		return true
+	})
+	ast.Inspect(fc.decl.Body, func(n ast.Node) bool {
+		if a, ok := n.(*ast.AssignStmt); ok {
+			for _, l := range a.Lhs {
+				if ix, ok := l.(*ast.IndexExpr); ok {
+					if lid, ok := ix.X.(*ast.Ident); ok && fc.info.ObjectOf(lid) == obj {
+						other++
+					}
+				}
+			}
+		}
+		return true
+	})
+	if defs != 1 || other != 0 || len(elts) > 64 {
+		return nil
+	}
+	for _, e := range elts {
+		if _, ok := e.(*ast.KeyValueExpr); ok {
+			return nil
+		}
+	}
+	return elts
+}
+
+func (fc *FuncCtx) execRangeUnrolled(st *State, x *ast.RangeStmt, elts []ast.Expr, label string) *State {
+	var vobj types.Object
+	if id, ok := x.Value.(*ast.Ident); ok {
+		vobj = fc.info.ObjectOf(id)
+	}
+	var exits []*State
+	cur := st
+	for _, e := range elts {
+		if cur.dead {
+			break
+		}
+		if vobj != nil {
+			cur.exprAlias[vobj] = e
+		}
+		tgt := &jumpTarget{label: label, isLoop: true}
+		fc.breakTargets = append(fc.breakTargets, tgt)
+		end := fc.exec(cur, x.Body)
+		fc.breakTargets = fc.breakTargets[:len(fc.breakTargets)-1]
+		exits = append(exits, tgt.breaks...)
+		cur = fc.merge(append([]*State{end}, tgt.continues...))
+	}
+	return fc.merge(append([]*State{cur}, exits...))
+}
+
 func (fc *FuncCtx) execRange(st *State, x *ast.RangeStmt, label string) *State {
+	if id, ok := unparen(x.X).(*ast.Ident); ok && x.Value != nil {
+		keyBlank := x.Key == nil
+		if kid, ok := x.Key.(*ast.Ident); ok && kid.Name == "_" {
+			keyBlank = true
+		}
+		if elts := fc.litSlice(id); elts != nil && keyBlank {
+			return fc.execRangeUnrolled(st, x, elts, label)
+		}
+	}
 	coll := fc.eval(st, x.X)
 	if _, ok := coll.T.Underlying().(*types.Pointer); ok {
 		coll = fc.derefChecked(st, coll, x, "range operand")
@@ -454,10 +549,12 @@ func (fc *FuncCtx) execRange(st *State, x *ast.RangeStmt, label string) *State {
 
 	tgt := &jumpTarget{label: label, isLoop: true}
 	fc.breakTargets = append(fc.breakTargets, tgt)
+	bodyStart := body.clone()
 	end := fc.exec(body, x.Body)
 	fc.breakTargets = fc.breakTargets[:len(fc.breakTargets)-1]
 	end = fc.merge(append([]*State{end}, tgt.continues...))
 	if !end.dead {
+		fc.checkSteps(end, bodyStart, lc, ord, pre, at, x)
 		next := mkMath("(+ " + idx.S + " 1)")
 		end.ghost[ghostName] = next
 		end.ghost["range_i"] = next
@@ -486,4 +583,18 @@ func (fc *FuncCtx) bindRangeVar(st *State, e ast.Expr, v Term, define bool) {
 		}
 	}
 	fc.assign(st, e, v)
+}
+
+// checkSteps asserts the per-iteration postconditions at the end of the loop body.
+func (fc *FuncCtx) checkSteps(end, bodyStart *State, lc *LoopContract, ord int, pre *State, at token.Pos, n ast.Node) {
+	for i, sc := range lc.Steps {
+		env := fc.loopEnv(end, pre, at)
+		env.iter = fc.codeEnv(bodyStart, at)
+		t := fc.cevalIn(env, sc, n)
+		site := "loop" + strconv.Itoa(ord) + ".step" + strconv.Itoa(i+1)
+		if sc.Tag != "" {
+			site = "loop" + strconv.Itoa(ord) + "." + sc.Tag
+		}
+		fc.oblige(end, "step", site, t.S, n, sc.Text)
+	}
 }
